@@ -211,8 +211,10 @@ def r06c(model, ctx):
                   f"{meth} must obtain I/O nets through emit_io_use()", f"{IR}:{f2.lineno}")
     # instance/memory/buffer outputs are connected through connect() (so logic+instance conflicts are caught)
     for meth in ("emit_iobuffer", "emit_instance", "emit_read_port", "emit_drivers", "emit_top_ports"):
+        from ..engine.inline import reachable_helpers
         f2 = model.func(f"{IR}::NetlistEmitter.{meth}")
-        ok = any(isinstance(n, ast.Call) and unparse(n.func) == "self.connect" for n in ast.walk(f2))
+        ok = any(isinstance(n, ast.Call) and unparse(n.func) == "self.connect"
+                 for f_ in reachable_helpers(model, f"{IR}::NetlistEmitter.{meth}") for n in ast.walk(f_))
         ctx.check(ok, R, f"{meth}:connects-through-connect", "drives signals via connect()",
                   f"{meth} must drive signal nets through connect()", f"{IR}:{f2.lineno}")
 
@@ -442,19 +444,24 @@ def r06e(model, ctx):
               "the early check must, for every bit in the statement's mask, record the driving domain and raise "
               "SyntaxError if the bit is already driven from another domain", f"{DSL}:{fn.lineno}")
     # emit_drivers: conflicts between (module, domain) pairs on one bit are raised
+    from ..engine.inline import reachable_helpers
+    from ..engine.astutil import parent_map
+    from ..engine.bitalg import canon
     fd = model.func(f"{IR}::NetlistEmitter.emit_drivers")
-    rz = [n for n in ast.walk(fd) if isinstance(n, ast.Raise) and "DriverConflict" in unparse(n)]
+    scope = ast.Module(body=reachable_helpers(model, f"{IR}::NetlistEmitter.emit_drivers"), type_ignores=[])
+    pm = parent_map(scope)
+    rz = [n for n in ast.walk(scope) if isinstance(n, ast.Raise) and "DriverConflict" in unparse(n) and "driven from" in unparse(n)]
     conds = set()
-    mod = model.mod(IR)
     for r in rz:
-        p = mod.parent(r)
+        p = pm.get(r)
         while p is not None and not isinstance(p, ast.If):
-            p = mod.parent(p)
-        conds.add(unparse(p.test))
-    ok = conds == {"other_domain != driver.domain", "other_module_idx != driver.module_idx"}
+            p = pm.get(p)
+        need(p is not None, "emit_drivers: a DriverConflict raise without a guard")
+        conds.add(canon(p.test))
+    ok = conds == {canon("other_domain != driver.domain"), canon("other_module_idx != driver.module_idx")}
     ctx.check(ok, R, "emit_drivers:module/domain-conflicts", "raises for a second driver from another domain or module",
               f"emit_drivers must raise DriverConflict when a bit is driven from a different domain or a different "
-              f"module; guards found: {sorted(conds)}", f"{IR}:{fd.lineno}")
+              f"module; guards found: {sorted(map(repr, conds))}", f"{IR}:{fd.lineno}")
 
 
 RULES = [("R-06a", r06a), ("R-06b", r06b), ("R-06c", r06c), ("R-06d", r06d), ("R-06e", r06e)]
